@@ -3,4 +3,4 @@
 From Coq Require Extraction.
 From Coq Require ExtrOcamlBasic.
 From Pq Require Import Extract.Sx Extract.Cmd.
-Extraction "pqmodel.ml" Cmd.run.
+Extraction "pqmodel.ml" Cmd.pqref_main.
